@@ -116,6 +116,10 @@ class Exec:
         if text in self.consts:
             v = self.consts[text]
             return Val("int", lit(v[0]), v[1])
+        two = "::".join(text.split("::")[-2:])
+        if two in self.consts:
+            v = self.consts[two]
+            return Val("int", lit(v[0]), v[1])
         short = text.split("::")[-1]
         if short in self.consts:
             v = self.consts[short]
@@ -303,6 +307,16 @@ class Exec:
             return Val("tuple", items=items)
         if rv.startswith("copy ") or rv.startswith("move ") or rv.startswith("const "):
             return self.operand(st, rv)
+        m = re.match(r"^discriminant\((_\d+)\)$", rv)
+        if m:
+            v = self.read_place(st, m.group(1))
+            if v.kind == "int":
+                return v
+            raise Unsupported("discriminant of non-integer-modelled value")
+        # field-less enum variant (e.g. `PrecompileSpecId::CANCUN`, or a bare `CANCUN` imported by `use`)
+        if re.match(r"^[A-Za-z_][\w:]*$", rv) and (rv in self.consts or rv.split("::")[-1] in self.consts):
+            v = self.consts.get(rv) or self.consts[rv.split("::")[-1]]
+            return Val("int", lit(v[0]), v[1])
         raise Unsupported("rvalue " + rv)
 
     # ---------------------------------------------------------------- execution
